@@ -36,11 +36,15 @@ def name_ref_text(a):
     return S.render(a)
 
 
-def build_model(pycells, names=(), via='dict', work=None):
+_PRISTINE = {}
+
+
+def build_model(pycells, names=(), via='dict', work=None, build_code=True):
     """pycells: address -> python constant | '=formula'.  names: [(name, ref text)]."""
     L = xl.lib()
     if via == 'xlsx':
         sheets = {}
+        late_x = {}
         for a, v in pycells.items():
             sh, ref = a.rsplit('!', 1)
             if isinstance(v, str) and v.startswith('='):
@@ -49,16 +53,22 @@ def build_model(pycells, names=(), via='dict', work=None):
                 cell = {'ref': ref, 't': 'b', 'v': '1' if v else '0'}
             elif isinstance(v, (int, float)):
                 cell = {'ref': ref, 't': 'n', 'v': repr(v)}
+            elif isinstance(v, str):
+                cell = {'ref': ref, 't': 'inlineStr', 'v': v}
             else:
-                cell = {'ref': ref, 't': 'inlineStr', 'v': str(v)}
+                cell = {'ref': ref, 't': 'n', 'v': '0'}
+                late_x[a] = v
             sheets.setdefault(sh, []).append(cell)
         path = os.path.join(work, f'wb-{os.getpid()}-{id(pycells)}.xlsx')
         xlsxwriter_min.write_xlsx(path, {'sheets': [{'name': s, 'cells': c} for s, c in sheets.items()],
                                          'names': [{'name': n, 'ref': r} for n, r in names]})
         try:
-            return L.ModelCompiler().read_and_parse_archive(path)
+            model = L.ModelCompiler().read_and_parse_archive(path, build_code=build_code)
         finally:
             os.remove(path)
+        for a, v in late_x.items():
+            model.set_cell_value(a, v)
+        return model
     comp = L.ModelCompiler()
     # read_and_parse_dict takes numbers and non-empty text; other constants (dates, empty text, None) are set afterwards
     late = {a: v for a, v in pycells.items()
@@ -66,17 +76,20 @@ def build_model(pycells, names=(), via='dict', work=None):
     if late:
         pycells = {a: (0 if a in late else v) for a, v in pycells.items()}
     if not names:
-        model = comp.read_and_parse_dict(dict(pycells))
+        model = comp.read_and_parse_dict(dict(pycells), build_code=build_code)
         for a, v in late.items():
             model.set_cell_value(a, v)
         return model
-    # the same steps parse_archive() performs after reading the cells
-    model = comp.read_and_parse_dict(dict(pycells), build_code=False)
-    comp.defined_names = {n: r.replace("'", '') if "''" not in r else r for n, r in names}
-    comp.build_defined_names()
-    comp.link_cells_to_defined_names()
-    comp.build_ranges()
-    model.build_code()
+    # models with defined names are loaded from an .xlsx written by the harness (the only public way to bind names);
+    # the pristine model is cached per process and every caller gets its own deep copy
+    import copy
+    import json
+    key = json.dumps([sorted((a, repr(v)) for a, v in pycells.items()), sorted(names), build_code], default=str)
+    if key not in _PRISTINE:
+        scratch = work or os.path.join(os.path.dirname(os.path.dirname(os.path.abspath(__file__))), '.work')
+        os.makedirs(scratch, exist_ok=True)
+        _PRISTINE[key] = build_model(pycells, names, via='xlsx', work=scratch, build_code=build_code)
+    model = copy.deepcopy(_PRISTINE[key])
     for a, v in late.items():
         model.set_cell_value(a, v)
     return model
